@@ -565,6 +565,12 @@ def rule_visit3(prog, rep, tier, anchor="ast_utils.find_in_ast", location_induct
             gs = [f for t, p in expr_guards(n.stmt, stop=fi.node) for f in facts(t, p)]
             if not any(_is_loc_eq(a) == "exact" and p for a, p in gs):
                 continue
+            rv = n.stmt.value
+            if isinstance(rv, ast.Name) and rv.id in fi.params() and not any(
+                    isinstance(x, ast.Name) and x.id == rv.id and isinstance(x.ctx, ast.Store) for x in ast.walk(fi.node)):
+                # the tree that was handed in is itself what was asked for: no candidate was chosen (`if node._location == search: return node`
+                # in front of the search, on its own or as an alternative of `not search or ..`)
+                continue
             k += 1
             loop = None
             p = n.stmt._parent
